@@ -553,6 +553,7 @@ def debug_module(idx, desc, entry, rnd, bounds=None):
 # C11 Default
 # ------------------------------------------------------------------------------------------------
 DV_SRC = {"none": None, "str": "\"abc\"", "empty_str": "\"\"", "path": "::dx_support::SRC7", "assoc_path": "::dx_support::Holder::SRC3", "into_path": "::dx_support::SRCI8",
+          "qself_path": "<::dx_support::Holder as ::dx_support::HasSrc>::SRC2", "turbofish_path": "::dx_support::HolderG::<u8>::SRC1",
           "call": "::dx_support::mk(5)", "block": "{ ::dx_support::mk(6) }", "method": "::dx_support::mk(4).same()", "int": "5", "neg": "-3",
           "bytes": "b\"ab\""}
 DV_TY = {"int": "u8", "neg": "i8", "bytes": "&'static [u8]"}
